@@ -3421,8 +3421,11 @@ class DenseIntOrFPElementsAttr(
         Return whether or not this dense attribute is defined entirely
         by a single value (splat).
         """
-        values = self.get_values()
-        return values.count(values[0]) == len(values)
+        # Compare the packed bytes: values such as 0.0 and -0.0 are equal as Python
+        # floats but are different elements.
+        data = self.data.data
+        size = self.get_element_type().compile_time_size
+        return len(data) > 0 and data == data[:size] * (len(data) // size)
 
     @staticmethod
     def parse_with_type(parser: AttrParser, type: Attribute) -> TypedAttribute:
